@@ -73,7 +73,7 @@ fn suite_checks<S: HSuite>(ctx: &Ctx, ml: &[usize], dl: &[usize], full_every: u6
     let tables = S::lib_iso();
     let e = S::curve();
     let inj = ctx.injecting("C06");
-    let rad = [ml.len() as u64, 2, dl.len() as u64, 2, 2, 4];
+    let rad = [ml.len() as u64, 2, dl.len() as u64, 3, 2, 4];
     ctx.sweep(
         &format!("{}.hash", name),
         crate::infra::space(&rad),
